@@ -297,7 +297,7 @@ class MapTail(Rule):
         c = lx.match_close(m, o)
         ma = re.match(r"\s*\|\s*(.*?)\s*\|\s*(.*)$", text[o + 1:c], re.S)
         rest = text[c + 1:].strip()
-        mu = re.fullmatch(r"\.\s*unwrap_or\s*\((.*)\)\s*;?", rest, re.S)
+        mu = re.fullmatch(r"\.\s*unwrap_or\s*\((.*)\)\s*;?", rest, re.S) or re.fullmatch(r"\.\s*unwrap_or_else\s*\(\s*\|\|\s*(.*)\)\s*;?", rest, re.S)
         if not ma or not (rest in ("", ";") or mu):
             raise Undecided(f"{where}: .map(..) is not the tail expression with a one-parameter closure -- contract needs review")
         log[self.rid] = log.get(self.rid, 0) + 1
